@@ -193,7 +193,7 @@ func cmdRace(args []string) int {
 	wg.Wait()
 	sum := Summary{Property: "C18", Tier: *tier, Seed: *seed, Evaluations: int(evals), DistinctNontrivial: len(tasks),
 		Rule: "16 goroutines for 12 s (thorough: 5 min) run ParseStatic on 6 shared archives and ParseRealtime on 42 shared messages under 13 extension configurations, each configuration sharing ONE options value and extension object across all goroutines (plus a shared zero-valued options value); every result is compared with the same call made alone, results are hashed and walked from other goroutines; the binary is built with -race; distinct_nontrivial counts the distinct tasks",
-		Tags:  map[string]int{"tasks": len(tasks), "mismatches": int(mismatches)}, KnownSeen: map[string]int{}, Validated: int(evals - mismatches)}
+		Tags: map[string]int{"tasks": len(tasks), "mismatches": int(mismatches)}, KnownSeen: map[string]int{}, Validated: int(evals - mismatches)}
 	for _, t := range tasks[:3] {
 		sum.Samples = append(sum.Samples, t.desc)
 	}
